@@ -815,4 +815,45 @@ theorem tls13_capture_exact (mask : Quic.Dissect.MaskFn) (H : Crypto.Prims) (P :
 
 end
 
+section
+open TLX.Export TLX.Spec.FrameParse
+
+/-- **What `Exact` means for an independent receiver.** In the block of the output file, packet `i` is the serialisation of
+    `frames[i]`: the independent parser reads a TCP segment with exactly that frame's sequence number, acknowledgment
+    number, flag bits and payload, from the server's (exported) endpoint to the client's or back according to the
+    frame's direction — so feeding what the parser reads to the textbook reassembler `Spec.reassemble` gives the two
+    plaintexts. -/
+theorem exact_frames_parse (f : Bytes) (c : Pipeline.Conn) (pc psv : Bytes) (h : Exact f c pc psv) :
+    ∃ (frames : List TcpOut.Frame) (A C : List Item) (B : List Bytes), B.length = frames.length ∧
+      Spec.reassemble frames = some (pc, psv) ∧
+      Container.read false f = .ok (A ++ (frames.zip B).map (fun pb => Item.pkt ⟨pb.1.ts, 10 ^ 6, 0, false⟩ pb.2) ++ C) ∧
+      ∀ pb ∈ frames.zip B, ∃ p, parse pb.2 = some p ∧
+        p.l4 = .tcp pb.1.seq pb.1.ack 5 (pb.1.flags % 512 / 256) (pb.1.flags % 256) 8192 0 [] ∧
+        p.payload = pb.1.payload ∧
+        (p.src, p.sport) = (if pb.1.fromServer then
+            (c.server.ip, TcpOut.exportedServerPort c.opts.keep (Pipeline.portmapFn c.opts.portmap) c.server.port)
+          else (c.client.ip, c.client.port)) ∧
+        (p.dst, p.dport) = (if pb.1.fromServer then (c.client.ip, c.client.port)
+          else (c.server.ip, TcpOut.exportedServerPort c.opts.keep (Pipeline.portmapFn c.opts.portmap) c.server.port)) := by
+  obtain ⟨frames, ⟨A, C, B, hB, hread, hgood⟩, hre⟩ := h
+  refine ⟨frames, A, C, B, by simpa using hB, hre, ?_, ?_⟩
+  · rw [hread, List.zip_map_left, List.map_map]
+    congr 3
+    apply List.map_congr_left
+    intro pb _
+    simp only [Function.comp, Prod.map, id]
+    congr 2
+    unfold Pipeline.addressed
+    split <;> rfl
+  · intro pb hpb
+    have hmem : (Pipeline.addressed c.opts c pb.1, pb.2) ∈ (frames.map (Pipeline.addressed c.opts c)).zip B := by
+      rw [List.zip_map_left]
+      exact List.mem_map.mpr ⟨pb, hpb, rfl⟩
+    have hg := hgood _ hmem
+    obtain ⟨seg, hp⟩ := C06Bytes.parse_serialize _ _ hg.wf hg.serialised
+    refine ⟨_, hp, ?_⟩
+    cases hfs : pb.1.fromServer <;> simp [Frame.ofOutPkt, Pipeline.addressed, hfs]
+
+end
+
 end TLX.Props.C01File
